@@ -124,6 +124,15 @@ fn main() {
                 }
             }
         }
+        for (f, vs) in &corp.rustc_families {
+            println!("=== rustc family {f} ===");
+            for (vn, v) in vs {
+                println!("--- variant {vn}\n{}", e3_core::emit::dfir_text(v));
+                if mermaid {
+                    println!("{}", e3_core::precheck::mermaid(&e3_core::emit::dfir_text(v)).unwrap_or_else(|e| e));
+                }
+            }
+        }
         println!("rejected: {:?}", corp.rejected);
         return;
     }
